@@ -15,7 +15,7 @@ impl Property for C19 {
         "C19"
     }
     fn rule(&self) -> String {
-        "SEM programs with declared types, doc comments (0..2 `//` lines directly above; detached by a blank line; a block comment above; indented in bodies) and class references with 0..3 positional arguments, x every identifier occurrence x request ranges {whole file, every statement, every class-reference name, 16 random}. Hover: on every use = hover on its declaration (except fields overridden by let); signature contains the name and the declared type (fields, template arguments, variables, defsets) or the kind keyword (class, def, multiclass, defm); document = exactly the adjacent // lines or None. Hints over the whole file: exactly one per positional argument (at its first byte, label contains the parameter name) and one per field override (right after the field name, label contains the field's declared type); for a sub-range: a subset of those, all positioned inside the range. Hints of multiclass references are not asserted. distinct = (seed, n); non-trivial = >=1 doc comment, >=1 positional argument hint and >=1 override hint".into()
+        "SEM programs with declared types, doc comments (0..2 `//` lines directly above; detached by a blank line; a block comment above; indented in bodies) and class references with 0..3 positional arguments, x every identifier occurrence x request ranges {whole file, every statement, every class-reference name, 16 random}. Hover: on every use = hover on its declaration (except fields overridden by let); on the name of a field override: the field's name and declared type, documented by the // lines above the declaration it points at (the let itself when it introduces the field in that record, else the field declaration); signature contains the name and the declared type (fields, template arguments, variables, defsets) or the kind keyword (class, def, multiclass, defm); document = exactly the adjacent // lines or None. Hints over the whole file: exactly one per positional argument (at its first byte, label contains the parameter name) and one per field override (right after the field name, label contains the field's declared type); for a sub-range: a subset of those, all positioned inside the range. Hints of multiclass references are not asserted. distinct = (seed, n); non-trivial = >=1 doc comment, >=1 positional argument hint and >=1 override hint".into()
     }
     fn families(&self, ctx: &Ctx) -> Vec<Family> {
         vec![Family::new("sem-programs", ctx.tier.pick(500, 30000), |_c, rng, emit| {
@@ -45,6 +45,24 @@ impl Property for C19 {
             };
             let dd = &p.decls[d];
             if dd.kind == DeclKind::Field && dd.overridden && !is_decl {
+                // the use may point at the declaration or at an override further up: whichever it is,
+                // the documentation shown is the one of the declaration go-to-definition points at
+                if let (Some(f), Some(h)) = (fid(occ.file), fid(occ.file).and_then(|f| a.hover(pos(f, occ.range.0)))) {
+                    if let Some(t) = a.goto_definition(pos(f, occ.range.0)) {
+                        let tr = crate::ws::r2(t.range);
+                        let want = p
+                            .lets
+                            .iter()
+                            .find(|l| fid(l.file) == Some(t.file) && l.name_range == tr)
+                            .map(|l| l.doc.clone())
+                            .or_else(|| p.decls.iter().find(|x| fid(x.file) == Some(t.file) && x.range == tr).map(|x| x.doc.clone()));
+                        if let Some(want) = want {
+                            if h.document != want {
+                                return fail("C19.hover-doc", "C19.hover-doc:overridden-field-use".into(), format!("{}:{:?} {:?}: document {:?}, but the declaration it points at ({tr:?}) is documented {want:?}", p.files[occ.file].0, occ.range, dd.name, h.document));
+                            }
+                        }
+                    }
+                }
                 continue;
             }
             let (Some(f), Some(df)) = (fid(occ.file), fid(dd.file)) else { continue };
@@ -100,6 +118,34 @@ impl Property for C19 {
             for l in p.lets.iter().filter(|l| l.file == fi) {
                 want.insert((l.name_range.1, l.field_ty.render()));
                 nlet += 1;
+                // hover on the overriding name: the field with its declared type, documented by the
+                // comment above the `let` (not by the one above the enclosing record)
+                let at = (l.name_range.0 + l.name_range.1) / 2;
+                match a.hover(pos(f, at)) {
+                    None => return fail("C19.hover-missing", "C19.hover-missing:FieldLet".into(), format!("{fname}:{at}: no hover on the name of a field override")),
+                    Some(h) => {
+                        if !h.signature.contains(&l.field_name) || !h.signature.contains(&l.field_ty.render()) {
+                            return fail("C19.hover-signature", "C19.hover-signature:FieldLet".into(), format!("{fname}:{at}: signature {:?} of a field override does not contain {:?} and {:?}", h.signature, l.field_name, l.field_ty.render()));
+                        }
+                        // the declaration the override name points at is either the override itself (it
+                        // introduces the field in this record) or the field declaration of the same record
+                        let target = a.goto_definition(pos(f, at)).map(|t| (t.file, crate::ws::r2(t.range)));
+                        let want_doc = match target {
+                            Some((tf, tr)) => p
+                                .lets
+                                .iter()
+                                .find(|x| fid(x.file) == Some(tf) && x.name_range == tr)
+                                .map(|x| x.doc.clone())
+                                .or_else(|| p.decls.iter().find(|d| fid(d.file) == Some(tf) && d.range == tr && d.kind == DeclKind::Field).map(|d| d.doc.clone())),
+                            None => None,
+                        };
+                        if let Some(want_doc) = want_doc {
+                            if h.document != want_doc {
+                                return fail("C19.hover-doc", "C19.hover-doc:FieldLet".into(), format!("{fname}:{at}: document {:?} on a field override whose declaration is at {target:?}, expected {want_doc:?}", h.document));
+                            }
+                        }
+                    }
+                }
             }
             let mc_spans: Vec<(usize, usize)> = p.classrefs.iter().filter(|r| r.file == fi && r.is_multiclass).filter_map(|r| r.args_range).collect();
             let norm = |hs: Vec<ide::handlers::inlay_hint::InlayHint>| -> Vec<(usize, String)> {
